@@ -40,6 +40,11 @@ def call_external(h: Any, name: str, args: List[AV], kwargs: Dict[str, AV], node
     i = h.i
     ctx = h.ctx
     short = name[9:] if name.startswith("builtins.") else name
+    xh = i.hooks.get("__external__", {}).get(short)
+    if xh is not None:
+        r = xh(i, args, kwargs, node)
+        if r is not NotImplemented:
+            return r
 
     if short == "isinstance":
         return Const(h.isinstance_(args[0], args[1], node))
@@ -316,8 +321,9 @@ def call_external(h: Any, name: str, args: List[AV], kwargs: Dict[str, AV], node
             tot = tot + f
         return h.from_lin(tot)
     if short == "sys.exit":
+        ctx.log.append(("extcall", "sys.exit", tuple(args), i.site(node)))
         raise h.raise_("SystemExit", "", node)
-    ctx.log.append(("extcall", short, tuple(args), i.site(node)))
+    ctx.log.append(("extcall", short, tuple(args), tuple(sorted(kwargs.items())), i.site(node)))
     return Term(f"ext:{short}", tuple(args), ctx.new_id())
 
 
